@@ -19,6 +19,22 @@ def candidates(raw: bytes):
     return list(dict.fromkeys(size_c + must_m)), list(dict.fromkeys(may_m))
 
 
+def support(raw: bytes):
+    """offset -> number of detection methods (size relation, end-of-stub marker) that propose it (markers fully
+    inside the 1024-byte search range only)."""
+    out = {}
+    for c in xorenc.size_candidates(raw):
+        out[c] = out.get(c, 0) + 1
+    p = raw.find(b"\xff\xff\xff")
+    seen = set()
+    while p != -1 and p + 3 <= 1024:
+        if p + 3 not in seen:
+            seen.add(p + 3)
+            out[p + 3] = out.get(p + 3, 0) + 1
+        p = raw.find(b"\xff\xff\xff", p + 1)
+    return out
+
+
 def validates(raw: bytes, c: int) -> bool:
     if c + 8 > len(raw):
         return False
